@@ -5,7 +5,7 @@ from __future__ import annotations
 import ast
 
 from sa.cfg import CFG, G_EXC, N, find_path, fmt_path, reachable, reaches
-from sa.db import AnalysisError, FuncInfo, dotted, src, walk_local
+from sa.db import AnalysisError, FuncInfo, bind_args, dotted, src, walk_local
 from sa.flow import defs_reaching, reaching_defs
 from sa.model import contains, enclosing, execute_impl_funcs, is_user_func_call, superstep_funcs
 from sa.variants import Variant, replace_once, sub_first, sub_once
@@ -20,7 +20,8 @@ EXPLANATION = (
     "(swallowing, a new wrapper type, fall-through) is a violation; (R2) both templates unwrap the carrier to its cause, take the partial state from "
     "it, raise 'from None', and build FAILED values by filtering that partial state; (R3) in both supersteps a node's outputs reach the state only on "
     "paths where its executor returned normally (or a cache hit); (R4) nested runs and map propagate the original exception object (no handler, default "
-    "raise mode, 'raise result.error')."
+    "raise mode, 'raise result.error'); (R5) the error and pause paths of run() filter partial values with the non-raising default on_missing policy, "
+    "so a user's on_missing='error' cannot replace the node's exception."
 )
 NOT_DECIDED = "That partial values are the correct values (a statement about computed data); which of several same-step failures is reported first is decided under C02."
 
@@ -164,6 +165,7 @@ def run(ctx) -> None:
     rep.rule("C11.R2", "templates unwrap the carrier to its cause and build FAILED values from the carried partial state", floor=6)
     rep.rule("C11.R3", "a node's outputs are written to the state only after its executor returned normally", floor=4)
     rep.rule("C11.R4", "nested runs and map propagate the original exception object", floor=6)
+    rep.rule("C11.R5", "the error path filters partial values with the non-raising default policy", floor=3)
 
     reach = _reach_user(db)
     # ---- R1 ---------------------------------------------------------------
@@ -257,6 +259,46 @@ def run(ctx) -> None:
                             if any(isinstance(s, ast.Attribute) and s.attr == "partial_state" for s in srcs):
                                 okv = True
         rep.add("C11.R2", f"{m.qname}:failed-values", okv, f"{m.module.rel}:{h.lineno}", "FAILED values = filter_outputs(carried partial state)" if okv else "FAILED result values do not derive from the carried partial state")
+
+    # ---- R5 ---------------------------------------------------------------
+    fo = db.func("runners._shared.helpers.filter_outputs")
+    default = None
+    a = fo.args
+    pos = a.posonlyargs + a.args
+    for i, arg in enumerate(pos):
+        if arg.arg == "on_missing":
+            j = i - (len(pos) - len(a.defaults))
+            if j >= 0 and isinstance(a.defaults[j], ast.Constant):
+                default = a.defaults[j].value
+    valid = db.const_value(db.resolve_name("_VALID_ON_MISSING", fo.module, None))
+    valid_vals = [e.value for e in valid.elts if isinstance(e, ast.Constant)] if isinstance(valid, (ast.Tuple, ast.List, ast.Set)) else []
+    quiet_ok = default is not None and default in valid_vals
+    if quiet_ok:
+        from sa.cfg import specialize
+
+        val = {f"on_missing == {v!r}": (v == default) for v in valid_vals}
+        val["on_missing not in _VALID_ON_MISSING"] = False
+        val["on_missing in _VALID_ON_MISSING"] = True
+        for g in db.closure([fo], property_reads=False):
+            if g.module != fo.module:
+                continue
+            gcfg = ctx.cfg(g)
+            live = reachable(gcfg.entry, specialize(val))
+            for n in live:
+                if n.kind == "stmt" and isinstance(n.ast, ast.Raise):
+                    quiet_ok = False
+                if any(dotted(c.func) == "warnings.warn" for c in gcfg.calls_at(n)):
+                    quiet_ok = False
+    rep.add("C11.R5", f"{fo.qname}:default-policy-is-quiet", quiet_ok, fo.loc(), f"with the default on_missing={default!r} output filtering neither raises nor warns" if quiet_ok else f"output filtering can raise/warn under its default policy on_missing={default!r}")
+    for m in template_methods(db, "run"):
+        for tr in [n for n in walk_local(m.node) if isinstance(n, ast.Try)]:
+            for h in tr.handlers:
+                for c in [x for s_ in h.body for x in [s_] + list(walk_local(s_)) if isinstance(x, ast.Call)]:
+                    if "filter_outputs" in call_names(db, c, m):
+                        b = bind_args(c, fo).get("on_missing")
+                        ok = b is None or (isinstance(b, ast.Constant) and b.value == default)
+                        hn = "|".join(x.split(".")[-1] for x in ctx.cfg(m)._handler_names(h))
+                        rep.add("C11.R5", f"{m.qname}:except {hn}:filter_outputs", ok, f"{m.module.rel}:{c.lineno}", "partial values are filtered with the quiet default policy" if ok else f"the error path applies the caller's on_missing policy ({src(b)}): with on_missing='error' the handler raises ValueError instead of surfacing the node's error / returning FAILED")
 
     # ---- R3 ---------------------------------------------------------------
     collect = db.func("runners._shared.helpers.collect_inputs_for_node")
@@ -402,5 +444,7 @@ VARIANTS = [
     Variant("async-apply-failed", AS, replace_once("        if isinstance(result, BaseException):\n            if first_error is None:\n                first_error = result\n            continue\n", "        if isinstance(result, BaseException):\n            if first_error is None:\n                first_error = result\n            if not isinstance(result, ExecutionError):\n                continue\n            result = (ready_nodes[0], {}, {}, {})\n"), {"C11.R3"}),
     Variant("nested-run-continue-mode", "src/hypergraph/runners/sync/executors/graph_node.py", replace_once("            event_processors=event_processors,\n            _parent_span_id=parent_span_id,\n        )\n        return node.map_outputs_from_original(result.values)", "            event_processors=event_processors,\n            _parent_span_id=parent_span_id,\n            error_handling=\"continue\",\n        )\n        return node.map_outputs_from_original(result.values)"), {"C11.R4"}),
     Variant("collect-wraps-error", "src/hypergraph/runners/_shared/helpers.py", replace_once("                raise result.error  # type: ignore[misc]\n            # Continue mode", "                raise RuntimeError(str(result.error))\n            # Continue mode"), {"C11.R4"}),
+    Variant("template-error-path-onmissing", TS, replace_once("partial_values = filter_outputs(partial_state, graph, select) if partial_state is not None else {}", "partial_values = filter_outputs(partial_state, graph, select, on_missing) if partial_state is not None else {}"), {"C11.R5"}),
+    Variant("filter-default-policy-error", "src/hypergraph/runners/_shared/helpers.py", replace_once("    select: str | list[str] | Any = _UNSET_SELECT,\n    on_missing: str = \"ignore\",\n) -> dict[str, Any]:", "    select: str | list[str] | Any = _UNSET_SELECT,\n    on_missing: str = \"error\",\n) -> dict[str, Any]:"), {"C11.R5"}),
     Variant("twin-handler-alias", SR, replace_once("            except Exception as e:\n                raise ExecutionError(e, state) from e", "            except Exception as exc:\n                cause = exc\n                raise ExecutionError(cause, state) from exc"), set()),
 ]
